@@ -7,7 +7,9 @@
 package faultsys
 
 import (
+	"context"
 	"fmt"
+	"math/rand"
 	"net/http"
 	"strings"
 	"sync"
@@ -44,6 +46,7 @@ type System struct {
 	fired   []bool
 	Log     []Event
 	Kills   int
+	live    []*bigmachine.Machine
 	enabled bool
 }
 
@@ -96,6 +99,13 @@ func (s *System) ResetCounts() {
 	s.mu.Unlock()
 }
 
+// Events returns a copy of the RPC log.
+func (s *System) Events() []Event {
+	s.mu.Lock()
+	defer s.mu.Unlock()
+	return append([]Event{}, s.Log...)
+}
+
 // Fired reports how many triggers fired.
 func (s *System) Fired() int {
 	s.mu.Lock()
@@ -109,14 +119,22 @@ func (s *System) Fired() int {
 	return n
 }
 
-func (s *System) index(i int) (m *bigmachine.Machine) {
-	defer func() { recover() }() // the machine list may shrink concurrently
-	return s.System.Index(i)
+// Start implements bigmachine.System; the machines are also recorded here so
+// that looking one up never needs the test system's lock (which Kill holds
+// while it waits for the victim's in-flight handlers).
+func (s *System) Start(ctx context.Context, count int) ([]*bigmachine.Machine, error) {
+	ms, err := s.System.Start(ctx, count)
+	s.mu.Lock()
+	s.live = append(s.live, ms...)
+	s.mu.Unlock()
+	return ms, err
 }
 
 func (s *System) machineByAddr(addr string) *bigmachine.Machine {
-	for i := 0; i < s.System.N(); i++ {
-		if m := s.index(i); m != nil && strings.Contains(m.Addr, addr) {
+	s.mu.Lock()
+	defer s.mu.Unlock()
+	for _, m := range s.live {
+		if strings.Contains(m.Addr, addr) {
 			return m
 		}
 	}
@@ -124,12 +142,60 @@ func (s *System) machineByAddr(addr string) *bigmachine.Machine {
 }
 
 func (s *System) otherMachine(addr string) *bigmachine.Machine {
-	for i := 0; i < s.System.N(); i++ {
-		if m := s.index(i); m != nil && !strings.Contains(m.Addr, addr) {
+	s.mu.Lock()
+	defer s.mu.Unlock()
+	for _, m := range s.live {
+		if !strings.Contains(m.Addr, addr) {
 			return m
 		}
 	}
 	return nil
+}
+
+// Kill kills m (nil: a random live machine) synchronously.
+func (s *System) Kill(m *bigmachine.Machine) bool {
+	s.mu.Lock()
+	if m == nil && len(s.live) > 0 {
+		m = s.live[rand.Intn(len(s.live))]
+	}
+	for i, l := range s.live {
+		if l == m {
+			s.live = append(s.live[:i:i], s.live[i+1:]...)
+			break
+		}
+	}
+	s.mu.Unlock()
+	if m == nil {
+		return false
+	}
+	return s.System.Kill(m)
+}
+
+// kill kills m. The test system's Kill waits for the victim's in-flight
+// handlers while holding its lock; a handler may itself be inside an RPC that
+// fires another trigger, so the wait here is bounded (the kill then completes
+// in the background; connections of the victim are severed immediately
+// either way).
+func (s *System) kill(m *bigmachine.Machine) string {
+	s.mu.Lock()
+	for i, l := range s.live {
+		if l == m {
+			s.live = append(s.live[:i:i], s.live[i+1:]...)
+			break
+		}
+	}
+	s.mu.Unlock()
+	done := make(chan bool, 1)
+	go func() { done <- s.System.Kill(m) }()
+	select {
+	case ok := <-done:
+		if ok {
+			return m.Addr
+		}
+		return "not killed (already gone) " + m.Addr
+	case <-time.After(2 * time.Second):
+		return m.Addr + " (kill completing in the background)"
+	}
 }
 
 // observe is called before (phase "before") and after (phase "after") an
@@ -156,9 +222,7 @@ func (s *System) observe(method, addr, phase string, ordinal int) (drop bool) {
 		}
 		what := "no such machine"
 		if m != nil {
-			if s.System.Kill(m) {
-				what = m.Addr
-			}
+			what = s.kill(m)
 		}
 		s.mu.Lock()
 		s.Kills++
